@@ -624,6 +624,14 @@ def run_check(prop, tier, seed, scratch, t0, n_override=None):
     if model_ok and pf["ok"]:
         k = min(len(pairs), 150 if tier == "quick" else 600)
         idxs = sorted(rng.sample(range(len(pairs)), k)) if k else []
+        # big literals are slow to parse in Coq: keep the sample small in bytes as well
+        budget, kept = 250000, []
+        for j in idxs:
+            sz = len(dumps(pairs[j][1]))
+            if sz <= 6000 and budget - sz > 0:
+                kept.append(j)
+                budget -= 3 * sz
+        idxs = kept
         raw = run_model([pairs[j] for j in idxs])
         xs, xbad = cross_check_in_coq([pairs[j] for j in idxs], raw, scratch, pf["log"])
         if xbad != 0:
